@@ -64,7 +64,7 @@ def wind_roles(F: IntegrateFacts) -> Tuple[str, str]:
     return next(iter(socks)), next(iter(winds))
 
 
-def loop_iteration(prog: Program, F: IntegrateFacts, ev: Evaluator, ctx: Ctx, rows_before=None, env_out=None):
+def loop_iteration(prog: Program, F: IntegrateFacts, ev: Evaluator, ctx: Ctx, rows_before=None, env_out=None, stop_before=None):
     """Evaluate one iteration of the integration loop on a symbolic state (x, y, z, vx, vy, vz, t, wind wx..wz)."""
     tcc = prog.cls(C.M_TC, 'TrajectoryCalc')
     cfgc = prog.cls(C.M_TC, 'Config')
@@ -125,8 +125,15 @@ def loop_iteration(prog: Program, F: IntegrateFacts, ev: Evaluator, ctx: Ctx, ro
     st.env.update(env)
     if env_out is not None:
         env_out.update(env)
+    body = list(F.loop.body)
+    if stop_before is not None:
+        # only the statements of the body in front of the one that contains `stop_before`
+        k = next((i for i, st_ in enumerate(body) if any(x is stop_before for x in ast.walk(st_))), None)
+        if k is None:
+            raise AnalysisError('the statement asked for is not a statement of the loop body')
+        body = body[:k]
     try:
-        tree = ev.exec_block(F.loop.body, st, ctx)
+        tree = ev.exec_block(body, st, ctx)
     except Undecided as exc:
         raise AnalysisError(f'loop body of _integrate: {exc}') from exc
     return st, selfv, tree, wname
